@@ -20,6 +20,7 @@ Everything the theorems of `Props/C02Session`, `C02Dissect`, `C02Crypto`, `C02He
 -/
 import TLX.Lemmas.QuicPipeline
 import TLX.Lemmas.QuicSessionExact
+import TLX.Lemmas.CryptoStream
 import TLX.Props.C02Out
 namespace TLX.Props.C02Pipeline
 open TLX TLX.Quic TLX.QuicPipeline
@@ -129,5 +130,187 @@ theorem key_update_never_raises (h : Crypto.HashSuite) (hl : h.outLen < 65536) (
     ∃ sk siv ck civ ss cs, KeySchedule.keyUpdate h keyLen [a, b, c, d, ssec, csec] = .ok [sk, siv, ck, civ, ss, cs] := by
   simp [KeySchedule.keyUpdate, KeySchedule.makeInfo, KeySchedule.toBytes1, KeySchedule.toBytes2, bind, Except.bind,
         pure, Except.pure, KeySchedule.bQuicKey, KeySchedule.bQuicIv, KeySchedule.bQuicKu, hl, hk]
+
+/-! ### the TLS parser on post-handshake CRYPTO frames -/
+
+open TLX.Quic.CryptoStream in
+theorem msgLoop_raised (r : Bytes → Bool) (b : Bytes) (h : (msgLoop r b).2.2 = true) :
+    ∃ m ∈ (msgLoop r b).1, r m = true := by
+  fun_induction msgLoop r b with
+  | case1 b h1 => simp at h
+  | case2 b h1 n h2 => simp at h
+  | case3 b h1 n h2 m hr => exact ⟨m, by simp, hr⟩
+  | case4 b h1 n h2 m hr q ih =>
+    obtain ⟨x, hx, hrx⟩ := ih h
+    exact ⟨x, List.mem_cons_of_mem _ hx, hrx⟩
+
+open TLX.Quic.CryptoStream in
+theorem handleBufferGo_raised (r : Bytes → Bool) (srv : Bool) (pts : List PT) (st : State)
+    (h : (handleBufferGo r srv pts st).2.2 = true) : ∃ m ∈ (handleBufferGo r srv pts st).2.1, r m = true := by
+  induction pts generalizing st with
+  | nil => simp [handleBufferGo] at h
+  | cons p ps ih =>
+    simp only [handleBufferGo] at h ⊢
+    split
+    · rename_i hr
+      exact msgLoop_raised r _ hr
+    · rename_i hr
+      rw [if_neg hr] at h
+      obtain ⟨m, hm, hrm⟩ := ih _ h
+      exact ⟨m, List.mem_append_right _ hm, hrm⟩
+
+/-- is this handshake message one `handle_record` acts on (ClientHello 1, ServerHello 2, EncryptedExtensions 8)? -/
+def helloType (m : Bytes) : Bool :=
+  match m with
+  | [] => false
+  | t :: _ => t == 1 || t == 2 || t == 8
+
+/-- the handshake messages the call `update_session(frame)` hands to `handle_record` (the frame may complete
+    messages in any of the four spaces of its direction) -/
+def completedBy (t : Tls) (c : Quic.Session.CryptoIn) : List Bytes :=
+  match ptOf c.ptype with
+  | none => []
+  | some pt => (CryptoStream.update recordRaises t.frames (c.isServer, pt) ⟨t.nextId, c.offset, c.data, c.length⟩).2.1
+
+/-- the frame completes no ClientHello / ServerHello / EncryptedExtensions (e.g. it carries NewSessionTicket, the only
+    handshake message RFC 9001 §4.1.3 has in 1-RTT packets besides none) -/
+def Harmless (t : Tls) (c : Quic.Session.CryptoIn) : Prop := ∀ m ∈ completedBy t c, helloType m = false
+
+theorem handleRecord_not_hello (s : TlsMsgs.State) (m : Bytes) (h : helloType m = false) :
+    ∀ t r, m = t :: r → TlsMsgs.handleRecord s t.toNat m = (s, none) := by
+  intro t r hm
+  subst hm
+  simp only [helloType, Bool.or_eq_false_iff, beq_eq_false_iff_ne] at h
+  obtain ⟨⟨h1, h2⟩, h8⟩ := h
+  have n1 : t.toNat ≠ 1 := fun e => h1 (UInt8.toNat_inj.mp (by simpa using e))
+  have n2 : t.toNat ≠ 2 := fun e => h2 (UInt8.toNat_inj.mp (by simpa using e))
+  have n8 : t.toNat ≠ 8 := fun e => h8 (UInt8.toNat_inj.mp (by simpa using e))
+  unfold TlsMsgs.handleRecord
+  split
+  · rename_i e; exact absurd e n1
+  · rename_i e; exact absurd e n2
+  · rename_i e; exact absurd e n8
+  · rfl
+
+theorem recordRaises_not_hello (m : Bytes) (h : helloType m = false) : recordRaises m = false := by
+  unfold recordRaises
+  split
+  · rfl
+  · rename_i t r; rw [handleRecord_not_hello _ _ h t r rfl]; rfl
+
+theorem feedRecords_not_hello (s : TlsMsgs.State) (ms : List Bytes) (h : ∀ m ∈ ms, helloType m = false) :
+    feedRecords s ms = s := by
+  unfold feedRecords
+  induction ms generalizing s with
+  | nil => rfl
+  | cons m ms ih =>
+    simp only [List.foldl_cons]
+    have hm := h m (List.mem_cons_self ..)
+    cases m with
+    | nil => exact ih s (fun x hx => h x (List.mem_cons_of_mem _ hx))
+    | cons t r =>
+      simp only
+      rw [handleRecord_not_hello s _ hm t r rfl]
+      exact ih s (fun x hx => h x (List.mem_cons_of_mem _ hx))
+
+/-- `TlsNoRaise`, conditional form: a CRYPTO frame (of a packet type that can carry one) that completes no hello
+    message does not make `update_session` raise — in ANY parser state. -/
+theorem tls_no_raise_rtt1 (t : Tls) (c : Quic.Session.CryptoIn) (hpt : c.ptype = .rtt1) (hh : Harmless t c) :
+    (tlsUpdate t c).2 = none := by
+  unfold Harmless completedBy at hh
+  unfold tlsUpdate
+  rw [hpt] at hh ⊢
+  simp only [ptOf] at hh ⊢
+  split
+  · rename_i hr
+    obtain ⟨m, hm, hrm⟩ := handleBufferGo_raised _ _ _ _ hr
+    rw [recordRaises_not_hello m (hh m hm)] at hrm
+    cases hrm
+  · rfl
+
+/-- `TlsQuiet`, conditional form: … and leaves every attribute the session reads (`client_random`, `ciphersuite`,
+    `new_data`, …) and the header-protection keys as they were. -/
+theorem tls_quiet_rtt1 (t : Tls) (c : Quic.Session.CryptoIn) (hpt : c.ptype = .rtt1) (hh : Harmless t c) :
+    (tlsUpdate t c).1.msgs = t.msgs ∧ (tlsUpdate t c).1.hp = t.hp ∧ (tlsUpdate t c).1.ver = t.ver := by
+  unfold Harmless completedBy at hh
+  rw [hpt] at hh
+  simp only [ptOf] at hh
+  refine ⟨?_, ?_, ?_⟩
+  · unfold tlsUpdate; rw [hpt]; simp only [ptOf]; exact feedRecords_not_hello _ _ hh
+  · unfold tlsUpdate; rw [hpt]; rfl
+  · unfold tlsUpdate; rw [hpt]; rfl
+
+/-- In the composed session: a 1-RTT CRYPTO frame that completes no hello message (NewSessionTicket) is appended to
+    `output_buffer` and changes nothing else but the parser's reassembly buffers: no decryptor, key, epoch, packet-number
+    table, CID set or header-protection key. -/
+theorem one_rtt_crypto_keeps_keys (H : Crypto.Prims) (Pc : Cipher.Prims) (kl : List Keylog.Key) (s : Quic.Session.St Tls)
+    (p : Pkt) (f : Frame.Parsed) (c : Quic.Session.CryptoIn) (hpt : c.ptype = .rtt1) (hh : Harmless s.tls c)
+    (hnd : s.tls.msgs.newData = false) :
+    Quic.Session.handleCrypto (params H Pc kl) s p f c =
+      ({ s with tls := (tlsUpdate s.tls c).1, out := s.out ++ [Quic.Session.mkOut p f] }, none) ∧
+    (tlsUpdate s.tls c).1.msgs = s.tls.msgs ∧ (tlsUpdate s.tls c).1.hp = s.tls.hp := by
+  obtain ⟨q1, q2, _⟩ := tls_quiet_rtt1 s.tls c hpt hh
+  refine ⟨?_, q1, q2⟩
+  have hn := tls_no_raise_rtt1 s.tls c hpt hh
+  unfold Quic.Session.handleCrypto
+  have hu : (params H Pc kl).tlsUpdate s.tls c = ((tlsUpdate s.tls c).1, none) := by
+    show tlsUpdate s.tls c = _
+    rw [← hn]
+  rw [hu]
+  simp only
+  unfold Quic.Session.afterTls
+  have hflag : (params H Pc kl).tlsNewData (tlsUpdate s.tls c).1 = false := by
+    show (tlsUpdate s.tls c).1.msgs.newData = false
+    rw [q1]; exact hnd
+  simp only [hflag, Bool.false_eq_true, if_false]
+
+/-! ### … and why the unconditional hypotheses of `one_rtt_exact` do not hold for `QuicTlsSession` -/
+
+/-- a 1-RTT CRYPTO frame from the client carrying an EncryptedExtensions message with an empty extension list -/
+def eeFrame : Quic.Session.CryptoIn := ⟨false, .rtt1, 0, 6, [8, 0, 0, 2, 0, 0]⟩
+
+theorem parseExts_nil : TlsMsgs.parseExts [] = [] := by rw [TlsMsgs.parseExts]; simp
+
+theorem ee_no_raise : recordRaises [8, 0, 0, 2, 0, 0] = false := by
+  simp [recordRaises, TlsMsgs.handleRecord, TlsMsgs.handleEncryptedExtensions, TlsMsgs.extsThenNewData,
+    TlsMsgs.getExtensions, Bytes.beNat, Bytes.slice, parseExts_nil, TlsMsgs.applyExts]
+
+theorem ee_new_data (s : TlsMsgs.State) : (TlsMsgs.handleRecord s 8 [8, 0, 0, 2, 0, 0]).1.newData = true := by
+  simp [TlsMsgs.handleRecord, TlsMsgs.handleEncryptedExtensions, TlsMsgs.extsThenNewData,
+    TlsMsgs.getExtensions, Bytes.beNat, Bytes.slice, parseExts_nil, TlsMsgs.applyExts]
+
+theorem eeFrame_sets_new_data : (tlsUpdate {} eeFrame).1.msgs.newData = true ∧ (tlsUpdate {} eeFrame).2 = none := by
+  unfold tlsUpdate eeFrame
+  simp only [ptOf]
+  unfold CryptoStream.update CryptoStream.handleBuffer
+  simp only [CryptoStream.handleBufferGo, Lemmas.CryptoStream.msgLoop_eq_len]
+  simp [CryptoStream.State.set, CryptoStream.State.init, CryptoStream.absorb, CryptoStream.sortByOffset,
+    CryptoStream.insertSorted, CryptoStream.pass, CryptoStream.removeFrame, Lemmas.CryptoStream.msgLoopF, Bytes.beNat,
+    Bytes.slice, ee_no_raise, feedRecords, ee_new_data]
+
+/-- `TlsQuiet … .rtt1` — "1-RTT CRYPTO frames never set `new_data`" — is false for the real parser, whatever the key
+    log and the primitives: `handle_record` dispatches on the message type alone, so an EncryptedExtensions message
+    in a 1-RTT packet sets `new_data`, and `handle_crypto_frame` calls `set_tls_decryptors` again (which resets
+    `decryptors["Application"]` to one generation while the epochs keep their values, see TLX/Quic/Session.lean).
+    `one_rtt_exact` therefore applies to this instance only through the conditional theorems above. -/
+theorem tls_quiet_rtt1_counterexample (H : Crypto.Prims) (Pc : Cipher.Prims) (kl : List Keylog.Key) :
+    ¬ Lemmas.QuicSession.TlsQuiet (params H Pc kl) .rtt1 := by
+  intro h
+  have h1 : (tlsUpdate {} eeFrame).1.msgs.newData = false := h {} eeFrame rfl rfl
+  rw [eeFrame_sets_new_data.1] at h1
+  cases h1
+
+/-- the conditional theorems are not vacuous: a NewSessionTicket-typed message is `Harmless` in the initial state … -/
+example : Harmless {} ⟨true, .rtt1, 0, 6, [4, 0, 0, 2, 0, 0]⟩ := by
+  intro m hm
+  unfold completedBy at hm
+  simp only [ptOf] at hm
+  unfold CryptoStream.update CryptoStream.handleBuffer at hm
+  simp only [CryptoStream.handleBufferGo, Lemmas.CryptoStream.msgLoop_eq_len] at hm
+  simp [CryptoStream.State.set, CryptoStream.State.init, CryptoStream.absorb, CryptoStream.sortByOffset,
+    CryptoStream.insertSorted, CryptoStream.pass, CryptoStream.removeFrame, Lemmas.CryptoStream.msgLoopF, Bytes.beNat,
+    Bytes.slice, recordRaises, TlsMsgs.handleRecord] at hm
+  subst hm
+  rfl
 
 end TLX.Props.C02Pipeline
